@@ -101,7 +101,16 @@ def apply_spec(mod, spec):
                 v = mod.VibratoType(v)
             setattr(mod, e["n"], v)
         elif k == "effect":
-            mod.effect = rv.Synth(deviate.build(e["type"], e.get("devs", [])))
+            em = deviate.build(e["type"], e.get("devs", []))
+            if e.get("bind"):
+                # a MIDI binding on the effect's FIRST and LAST controller (a type may have exactly one)
+                from rv.cmidmap import MidiMessageType
+
+                names = [n for n, c in em.controllers.items() if c.attached(em)]
+                for j, n in enumerate({names[0]: 0, names[-1]: 1}):
+                    cm = em.controller_midi_maps[n]
+                    cm.message_type, cm.channel, cm.message_parameter = MidiMessageType.control_change, 2 + j, 40 + j
+            mod.effect = rv.Synth(em)
         elif k == "dev":
             deviate.apply_dev(mod, e["d"])
         else:
@@ -160,6 +169,9 @@ def check_case(case):
         d = S.diff(want, got)
         if d:
             vs.append(C.viol("roundtrip", dict(key, ctx=ctx, path=C.first_diff_key(d)), {"diff": S.diff_text(d)}, case))
+        if (l.version, l.max_version) != (mod.version, mod.max_version):
+            vs.append(C.viol("roundtrip", dict(key, ctx=ctx, path="record version fields"),
+                             {"expected": [mod.version, mod.max_version], "loaded": [l.version, l.max_version]}, case))
         slots = [i for i, s in enumerate(l.samples) if s is not None]
         if slots != sorted(want["payload"]["samples"].keys()):
             vs.append(C.viol("slot-indices-moved", dict(key, ctx=ctx), {"slots": slots}, case))
@@ -305,6 +317,24 @@ def object_cases(ctx):
         add("effect", [{"k": "effect", "type": ty}])
         add("effect", [{"k": "effect", "type": ty, "devs": [deviate.module_devs(ty, ctx.seed)[3]]}])
     add("effect", [{"k": "effect", "type": "Amplifier"}, dict(base), {"k": "map", "entries": [[3, 0]]}])
+    # the embedded effect may be ANY module type: each once with a MIDI binding on its first and last controller
+    from rvmc import spec as _spec
+
+    for ty, t in _spec.types().items():
+        if ty in ("Output",) or not t.controllers:
+            continue
+        add("effect-of-every-type", [{"k": "effect", "type": ty, "bind": True}])
+    # the record's own version words, alone and together with a full keyboard split / samples / an effect
+    # (k = 2: a reader that interprets one part of the record depending on another)
+    split = {"k": "map", "entries": [[i, (i * 5 + 1) % 128] for i in range(119)]}
+    for f in ("version", "max_version"):
+        for v in (0, 1, 4, 5, 6, 7, U32M):
+            add("field:" + f, [{"k": "field", "n": f, "v": v}])
+            add("pair:" + f + "+map", [{"k": "field", "n": f, "v": v}, split])
+            add("pair:" + f + "+sample", [{"k": "field", "n": f, "v": v}, {"k": "sample", "i": 7, "data": "odd", "fields": {"loop_type": 2}},
+                                          {"k": "env", "e": "pitch_envelope", "fields": {"enable": True, "points": [[0, 0], [9, 100]]}}])
+    for n, v in (("vibrato_type", 2), ("volume_fadeout", 8192), ("editor_cursor", -1)):
+        add("pair:" + n + "+map", [{"k": "field", "n": n, "v": v}, split, {"k": "sample", "i": 127, "data": "frame"}])
     for d in deviate.module_devs("Sampler", ctx.seed, spikes="few", opt8="few"):
         if d["k"] in ("ctl", "opt"):
             add("controller-or-option", [{"k": "dev", "d": d}, dict(base)])
